@@ -769,10 +769,21 @@ func c07r5(c *Ctx) {
 				}
 				i := i
 				reach := m.ReachableFromEdges(into, func(n *cfgx.Node) bool { return testNodes[i][n] })
+				// (a loop that sorts the outputs into several lists — immature, confirmed, spendable — filters only
+				// the list that is meant to be spendable: the test filters nothing when *no* list lies behind it)
+				behind := 0
+				var first *cfgx.Node
 				for _, cn := range collects {
 					if _, ok := reach[cn]; ok && !testNodes[i][cn] {
-						bypass[i] = cn
+						if first == nil {
+							first = cn
+						}
+					} else {
+						behind++
 					}
+				}
+				if behind == 0 {
+					bypass[i] = first
 				}
 			}
 			for i, t := range []struct {
